@@ -168,6 +168,9 @@ def stats(cases):
         st["with_switch"] += any(s["kind"] == "Switch" for s in D["structs"])
         st["with_two_modules"] += len({b["mod"] for b in D["bodies"]}) > 1
         st["with_validate"] += any(b["validate"] for b in D["bodies"])
+        st["with_forwarded_arg"] += any(s["argk"] == "f" for s in D["sites"])
+        st["with_forwarded_arg_to_validating_method"] += any(
+            s["argk"] == "f" and D["bodies"][s["callee"] - 1]["validate"] for s in D["sites"])
         callers = defaultdict(set)
         for s in D["sites"]:
             callers[s["callee"]].add(s["caller"])
